@@ -110,7 +110,7 @@ class fsIndex:
         assert isinstance(key, bytes)
         return str2num(self._data[key[:6]][key[6:]])
 
-    def save(self, pos, fname):
+    def save(self, pos, fname, tid=None):
         with open(fname, 'wb') as f:
             pickler = Pickler(f, _protocol)
             pickler.fast = True
@@ -118,6 +118,10 @@ class fsIndex:
             for k, v in self._data.items():
                 pickler.dump((k, v.toString()))
             pickler.dump(None)
+            if tid is not None:
+                # Optional trailer (ignored by older readers, which stop at
+                # the None): id of the last transaction before pos.
+                pickler.dump(tid)
 
     @classmethod
     def load(class_, fname):
@@ -138,7 +142,11 @@ class fsIndex:
                     break
                 k, v = v
                 data[ensure_bytes(k)] = fsBucket().fromString(ensure_bytes(v))
-            return dict(pos=pos, index=index)
+            try:
+                tid = unpickler.load()
+            except EOFError:
+                tid = None                  # saved without the trailer
+            return dict(pos=pos, index=index, tid=tid)
 
     def get(self, key, default=None):
         assert isinstance(key, bytes)
